@@ -322,6 +322,8 @@ func c09(c *core.Check) {
 	r7 := c.Rule("R7", "table wrapping gives every cell its own grid slot: GridX is the cursor after skipping (in a loop) the columns occupied by cells spanning from previous rows, the cursor advances by Colspan, Rowspan is clamped to the rows left in the group and the spanned rows mark exactly the cell's columns", 5)
 	tableSlotRule(c, r7)
 	c09ClassTests(c)
+	c09Accumulators(c)
+	c09Replaced(c)
 }
 
 // c09Spans: a table cell spans at least one column (HTML 5: colspan is clamped to >= 1), while rowspan may be 0.
@@ -773,4 +775,92 @@ func c09ClassTests(c *core.Check) {
 		}
 		r.Cond(strings.Join(got, " ") == strings.Join(want[fname], " "), "html/boxes."+fname+" | classes tested", pos, strings.Join(got, " "), fmt.Sprintf("tests the classes {%s}, CSS 2.1 names {%s}", strings.Join(got, " "), strings.Join(want[fname], " ")))
 	}
+}
+
+// c09Accumulators: a list handed to a box that keeps it is not reused as a buffer.
+func c09Accumulators(c *core.Check) {
+	p := c.Prog
+	r := c.Rule("R9", "box children are not shared with a buffer: in the box-building passes, a slice variable that was handed to a constructor which keeps it as the children of a box is never emptied by re-slicing (`x = x[:0]`) and filled again — the next run of boxes would overwrite the children of the box just built", 1)
+	retains := p.Retains()
+	n := 0
+	for _, pkg := range []string{"html/boxes", "html/layout"} {
+		for _, fn := range p.FuncsOfPkg(pkg) {
+			fn := fn
+			varOf := func(v ssa.Value) string {
+				for i := 0; i < 4; i++ {
+					switch x := v.(type) {
+					case *ssa.Phi:
+						return x.Comment
+					case *ssa.Call:
+						if b, ok := x.Call.Value.(*ssa.Builtin); ok && b.Name() == "append" {
+							v = x.Call.Args[0]
+							continue
+						}
+					case *ssa.Slice:
+						v = x.X
+						continue
+					}
+					break
+				}
+				return ""
+			}
+			core.Instrs(fn, func(in ssa.Instruction) {
+				sl, ok := in.(*ssa.Slice)
+				if !ok || sl.High == nil {
+					return
+				}
+				if k, isK := core.ConstInt(sl.High); !isK || k != 0 {
+					return
+				}
+				name := varOf(sl.X)
+				if name == "" {
+					return
+				}
+				n++
+				kept := ""
+				core.Instrs(fn, func(in2 ssa.Instruction) {
+					call, ok := in2.(*ssa.Call)
+					if !ok || call.Call.StaticCallee() == nil {
+						return
+					}
+					callee := call.Call.StaticCallee()
+					for j, a := range call.Call.Args {
+						if retains[callee][j] && varOf(a) == name {
+							kept = callee.Name() + " at " + p.Pos(call.Pos())
+						}
+					}
+				})
+				r.Cond(kept == "", core.FuncName(fn)+" | "+name+" = "+name+"[:0]", p.Pos(sl.Pos()), "the list is not kept by any box", "the list was handed to "+kept+", which keeps it as the children of a box, and is then emptied in place and refilled: the box's children are overwritten by the next run")
+			})
+		}
+	}
+	r.OK("html/boxes, html/layout | buffers reset by re-slicing examined", "-", fmt.Sprintf("%d", n))
+}
+
+// c09Replaced: the children of a replaced element generate no box.
+func c09Replaced(c *core.Check) {
+	p := c.Prog
+	r := c.Rule("R10", "a replaced box has no children: makeReplacedBox copies named fields of the element's box (string-set, bookmark label) into the replaced box, never the whole BoxFields or its Children — the fallback content of an <object> or the elements of an inline <svg> would stay in the tree, outside the reach of every anonymous-box pass", 1)
+	fn := p.Fn("html/boxes", "makeReplacedBox")
+	if fn == nil {
+		r.Anchor("html/boxes.makeReplacedBox")
+		return
+	}
+	bad := ""
+	n := 0
+	core.Instrs(fn, func(in ssa.Instruction) {
+		st, ok := in.(*ssa.Store)
+		if !ok {
+			return
+		}
+		n++
+		// a store of a whole BoxFields value
+		if named, ok := st.Val.Type().(*types.Named); ok && named.Obj().Name() == "BoxFields" {
+			bad = "the whole BoxFields of the element's box is copied at " + p.Pos(st.Pos())
+		}
+		if fa, ok := st.Addr.(*ssa.FieldAddr); ok && core.FieldName(fa) == "Children" {
+			bad = "the Children field is assigned at " + p.Pos(st.Pos())
+		}
+	})
+	r.Cond(bad == "" && n > 0, "html/boxes.makeReplacedBox | fields copied", p.Pos(fn.Pos()), "named fields only", bad+": the replaced box keeps the boxes of the element's children")
 }
